@@ -282,3 +282,5 @@ def run(chk, F):
     chk.run_rule("C15.engine-waits", "BlockEngine::wait awaits a Wait round-trip through every flusher and the reclaimers; waiters are answered only on io completion", 4, engine_waits, F)
     chk.run_rule("C15.drop-closes", "Drop and close() run close_inner with the cache's own flag and tiers", 2, drop_closes, F)
     chk.run_rule("C15.inmem-guard", "every Store::enqueue of the hybrid layer is control-dependent on location != InMem", 5, C12.inmem_guard, F)
+    from rules import mustcall
+    mustcall.run_for(chk, F, "C15")
